@@ -330,10 +330,11 @@ Definition locked_append (v : ver) (s : st) (c : N) (fid len : N) (art : option 
     ++ [IPt 14; IPt 15; ISetNext (2 * c) (seq + 1); IPt 16; IAck fid; IOk]
   end.
 
-(* create_continuity: fixed seq 0, no lock, index saved, then next_seq := 1 *)
+(* create_continuity (create_continuity_locked since /repo 3ef7dd4: the seq mutex is taken first and held by
+   branch / handoff until the child's counter is set): fixed seq 0, index saved, then next_seq := 1 *)
 Definition create (v : ver) (c : N) (fid len : N) (dflt : bool) : list instr :=
   let f := mkf (2 * c) 0 fid len None in
-  truth_append v f ++ [IPt 13] ++ side_append c f ++ [IPt 14; IPt 15]
+  [IPt 11; IPt 12] ++ truth_append v f ++ [IPt 13] ++ side_append c f ++ [IPt 14; IPt 15]
   ++ [IIdxMem (if dflt then Some c else None) (Some c)] ++ save_index
   ++ [IPt 19; IPt 17; ISetNext (2 * c) 1; IPt 18].
 
